@@ -312,13 +312,58 @@ def room_case(draw):
     ncf = draw(st.one_of(st.integers(3, 12), st.integers(3, 40)))
     vis = draw(st.sampled_from(['full', 'full', 'random', 'random', 'chain', 'ring', 'split'])) if n >= 3 else draw(st.sampled_from(['full', 'full', 'random']))
     return {'seed': draw(st.integers(0, 2 ** 31 - 1)), 'ids': ids, 'ncf': ncf, 'visibility': vis, 'timing': draw(st.sampled_from(['sparse', 'sparse', 'dense', 'boundary'])),
-            'bs_order': draw(st.sampled_from(['sorted', 'reverse'])), 'max_tilt': draw(st.sampled_from([10.0, 10.0, 3.0, 0.0]))}
+            'bs_order': draw(st.sampled_from(['sorted', 'reverse'])), 'max_tilt': draw(st.sampled_from([10.0, 10.0, 3.0, 0.0])),
+            'yaw_mode': draw(st.sampled_from(['random', 'random', 'random', 'quarter']))}
+
+
+# ---------------------------------------------------------------- pose averaging (anchored mechanism: quaternion averaging)
+def run_average(case):
+    """The average of several estimates of ONE pose that agree to within a hair is that pose - whatever the orientation
+    (quaternions q and -q are the same rotation; near half a turn tiny perturbations flip the sign scipy reports)."""
+    from cflib.localization.lighthouse_initial_estimator import LighthouseInitialEstimator
+    from cflib.localization.lighthouse_types import Pose
+    out = Outcome()
+    R0 = rot_axis(case['axis'], case['angle'])
+    if case.get('yaw') is not None:
+        R0 = rot_axis([0, 0, 1], case['yaw']) @ (R0 if case['tilted'] else np.eye(3))
+    t0 = np.array(case['pos'], float)
+    rng = np.random.RandomState(case['seed'])
+    poses = []
+    for k in range(case['n']):
+        dR = rot_axis(rng.normal(size=3) + 1e-9, case['eps'] * rng.uniform(0, 1)) if case['eps'] else np.eye(3)
+        poses.append(Pose(dR @ R0, t0 + rng.uniform(-1, 1, 3) * case['eps']))
+    try:
+        avg = LighthouseInitialEstimator._avarage_poses(poses)
+    except Exception as e:  # noqa
+        out.fail('average:raises', '%r: %r' % (case, e))
+        return out
+    err_r = rot_angle(avg.rot_matrix, R0)
+    err_t = float(np.linalg.norm(avg.translation - t0))
+    half = abs(abs(math.acos(max(-1.0, min(1.0, (np.trace(R0) - 1) / 2)))) - math.pi) < 1e-3
+    out.nontrivial = case['n'] >= 2 and (half or case.get('yaw') is not None)
+    out.feat('average-n%d' % min(case['n'], 3), 'near-half-turn' if half else 'generic-orientation', 'quarter-yaw' if case.get('yaw') is not None else 'free-axis')
+    tol = 10 * case['eps'] + 1e-6
+    if not (err_r <= tol and err_t <= tol):
+        out.fail('average:not-the-common-pose', 'n=%d eps=%g axis=%r angle=%r yaw=%r: average is %.3g rad / %.3g m from the pose all inputs agree on' % (
+            case['n'], case['eps'], case['axis'], case['angle'], case.get('yaw'), err_r, err_t))
+    return out
+
+
+@st.composite
+def average_case(draw):
+    axis = draw(st.one_of(st.lists(st.floats(-1, 1, allow_nan=False), min_size=3, max_size=3).filter(lambda v: sum(x * x for x in v) > 0.01),
+                          st.sampled_from([[1.0, 0, 0], [0, 1.0, 0], [0, 0, 1.0], [1.0, 1.0, 0]])))
+    angle = draw(st.one_of(st.floats(0, math.pi), st.sampled_from([0.0, math.pi, math.pi / 2, math.pi - 1e-9, 2.0])))
+    yaw = draw(st.sampled_from([None, None, 0.0, math.pi / 2, -math.pi / 2, math.pi, -math.pi]))
+    return {'axis': axis, 'angle': angle, 'yaw': yaw, 'tilted': draw(st.booleans()), 'pos': draw(st.lists(st.floats(-3, 3, allow_nan=False), min_size=3, max_size=3)),
+            'n': draw(st.integers(1, 6)), 'eps': draw(st.sampled_from([0.0, 1e-12, 1e-9, 1e-6])), 'seed': draw(st.integers(0, 10 ** 6))}
 
 
 def subchecks(tier):
     return [
         Sub('rooms', run_room, strategy=room_case(), examples={'quick': 160, 'thorough': 9600}),
         Sub('ippe-and-solver', run_ippe, strategy=room_case(), examples={'quick': 160, 'thorough': 6000}),
+        Sub('pose-averaging', run_average, strategy=average_case(), examples={'quick': 800, 'thorough': 40000}),
     ]
 
 
